@@ -29,7 +29,7 @@ func init() { harness.Register(check{}) }
 
 func (check) ID() string { return "C14" }
 
-const faultsPerCase = 10
+const faultsPerCase = 12
 
 func (check) Cases(tier string) int {
 	if tier == "thorough" {
@@ -50,7 +50,7 @@ func specPool(tier string) int {
 }
 
 func (check) Rule() string {
-	return "per case: a type program (struct with config tags / *struct / inline struct / map[string]T / []T / [N]T / interface{} over leaves string bool int int8-64 uint uint8-64 float32/64 time.Duration *regexp.Regexp, pointers to them, four hand-written leaf types with Validate or Unpack and a struct with Validate; validate tags min max positive nonzero required; one struct field in seven addressed by a dotted tag `config:\"a<sep>b\"`, which makes the namespace a in between a setting of its own to put faults at; depth <= 4; the path separator <sep> of the case - \".\" (half), \"/\", \"::\" - is part of the program: the dotted tags are written with it and every read of the case (Unpack, getters, Child, Has, Remove, setters) uses it, while messages always have to spell paths with dots) drawn from a seed-determined pool (thorough: 3000 programs, bounds the reflect.StructOf types per worker), a data tree generated FROM the program (numbers as int64/uint64/float64/decimal string, durations as text or seconds, free data below interface{}) loaded with NewFrom(PathSep(\".\"), VarExp, MetaData{src-<case>}) which must Unpack into the type (else valid-pair-rejected). Then up to 10 single faults, stratified over the fault kinds applicable in the tree (object/list for primitive, primitive for object/list, bool<->number, unparsable int/uint/float/bool/duration/regexp, out of range for every sized integer/float32/float64/duration incl. 2^63 and 2^64 floats, negative into unsigned, tag validators min/max/positive/nonzero/required with empty/null/missing, failing Validate()/Unpack() of the hand-written types, a struct setting left out or present as null where exactly ONE member is invalid on its zero value (several invalid members, zero arrays of validating elements, nested structs: not generated - the variant would carry more than one fault), references that do not resolve: a path missing at its first segment (${nope}, ${nope.missing}, ${nope.x.y}), at an intermediate or at the last segment below a namespace of the tree (${a.b.zz_nope.x}, ${a.b.zz_nope}), at an index behind a list of the tree (${l.5}, ${l.5.x}), through a primitive of the tree (${k.x}, ${k.x.y}, ${l.0.x.y}), a reference that resolves but to an object elsewhere in the tree where a primitive is expected (the setting holding the reference is the wrong typed one, not the object), self-referencing ${<path>}, a reference into a cycle of two helper settings (x:${y}, y:${x}; struct targets only, which do not read the helpers) - each either as the whole value (2 of 5) or inside a splice evaluating to a text (\"pre-${r}\", \"${r}/cache\"), a list (\"${r},extra\", \"[1, ${r}, 3]\") or an object (\"{zk: ${r}}\", \"{zk: {zm: [${r}]}}\") -, array too short/long; half of the reference faults are placed below an interface{} slot when the tree has one), each at one setting of the tree (struct fields, inline fields, map entries, list and array elements, below pointers, inside interface{} data). Every fault is observed on the configuration built directly and on one built by a randomly chosen other route: merge chains under the default policy (fault delivered by the later operand over an absent or placeholder setting / fault present first and the surroundings merged over it), AppendValues / PrependValues chains that cut the outermost list on the fault path into up to three operands (renumbering), NewFrom plus Remove of 1-3 extra elements in front of the fault in a list on the path (shifting), the input spelled in dotted keys (every edge into a non-empty dictionary or list folded into the key, \"a.b.c\":1 / \"a.l.0\":1 / \"a.l.1.k\":2 with lists spelled completely, or kept nested, decided per path; alone or as operands of the two default-policy chains; a quarter of the routed runs) so that namespaces and lists exist only implicitly, merges under ReplaceValues / ReplaceArrValues over an earlier operand holding the valid tree with every list on the fault path one element longer, a merge with FieldReplaceValues(<a dictionary on the fault path>) over an earlier operand holding the same tree with one more key in that dictionary (the dictionary then comes from the later operand as a whole, also for a member missing from it), a later operand giving the holder of the faulty setting both parts (a named setting added to the list the faulty element sits in, a first element added to the dictionary the faulty member sits in); the dotted spellings, the expansion routes, the mixed holders and the per-field replace get a fixed sixth of the routed runs each, the value written by Set*/SetChild, a faulty list or object written leaf by leaf with setters using full paths (the containers in between exist only as a by-product), an enclosing subtree attached by SetChild (fresh or taken from another tree), the key removed by Remove; and values produced by expansion (a fixed quarter of the routed runs): the subtree at the faulty setting, at its holder or further up the path is written as text in the flag/environment value syntax (bare, single and double quoted strings and keys, lists with and without brackets, nested lists and objects, null members) and the setting holds \"${ENV_n}\" served by a Resolve callback given to every read, or a splice whose middle piece is served by the callback or by a top-level helper setting, stored directly or delivered by a later merge operand - the list or object exists only while it is read, the fault sits at it (length, validator, type), at a member missing from it, or below it at any depth. The valid twin of every routed history must still unpack (for expanded values a twin that does not unpack is only counted: a number written as text is no duration). Observations: Unpack (with and without PathSep), the getters that must fail for the fault (dotted name, name+idx, or relative to an intermediate Child), Unpack of an intermediate Child into the matching sub-type; half of the runs (not on expanded values) also read the fault from a namespace on the fault path CAPTURED as *ucfg.Config by a sequence of Unpack calls into a struct { C *ucfg.Config `config:\"<key>\"` } (taken at the holder of the namespace): the other configuration (the same settings without the faulty one, own source) first and the faulty one second, a Child handle of the other configuration pre-filled and the faulty one unpacked over it, the faulty one first and the other second, or the faulty one alone - then Unpack of the captured configuration into the matching sub-type and a failing getter with the relative name: full dotted path and source as everywhere (a capture step that fails, or a captured read without error, is only counted); for reference faults also the calls that pass through the failing reference or measure it (Has, Remove, Set* of a name below it, CountField of it; judged when they fail). Explicit nulls go half of the time through the routes where the null arrives from a later operand than its holder. Plus, per case, 3 faults that make the load fail (NewFrom or Merge of the valid tree with one setting replaced by a text with broken ${ syntax or by a chan/func value, or with a primitive setting spelled a second time as a namespace \"k.zz_dup\": the error must name the full dotted path of that setting - either spelling for the duplicate - and the source), 2 setter calls with an index beyond MaxIdx(10) (on a name absent from a dictionary of the tree and on a list of the tree: the error must name the list setting; the source where the list exists), 6 reads of settings that do not exist (a key not in a dictionary of the tree, an index behind a list of the tree, names below those; dotted, name+idx, through a Child handle; any getter) whose error must name the first missing setting or a longer prefix of the request, and carry the source; and ~600 calls driving the error paths of Bool/Int/Uint/Float/String/Child, Has, CountField, Remove, Set*, SetChild, NewFrom, Merge and Unpack (missing, through primitives, through failing references, wrong types, unsupported values and targets, non-string keys, duplicate keys, broken ${ syntax, failing resolvers). Distinct = distinct (type program and tree shape, fault kind, depth class, route)."
+	return "per case: a type program (struct with config tags / *struct / inline struct / map[string]T / []T / [N]T / interface{} over leaves string bool int int8-64 uint uint8-64 float32/64 time.Duration *regexp.Regexp, pointers to them, four hand-written leaf types with Validate or Unpack and a struct with Validate; validate tags min max positive nonzero required; one struct field in seven addressed by a dotted tag `config:\"a<sep>b\"`, which makes the namespace a in between a setting of its own to put faults at; depth <= 4; the path separator <sep> of the case - \".\" (half), \"/\", \"::\" - is part of the program: the dotted tags are written with it and every read of the case (Unpack, getters, Child, Has, Remove, setters) uses it, while messages always have to spell paths with dots) drawn from a seed-determined pool (thorough: 3000 programs, bounds the reflect.StructOf types per worker), a data tree generated FROM the program (numbers as int64/uint64/float64/decimal string, durations as text or seconds, free data below interface{}) loaded with NewFrom(PathSep(\".\"), VarExp, MetaData{src-<case>}) which must Unpack into the type (else valid-pair-rejected). Then up to 12 single faults, stratified over the fault kinds applicable in the tree (object/list for primitive, primitive for object/list, bool<->number, unparsable int/uint/float/bool/duration/regexp, out of range for every sized integer/float32/float64/duration incl. 2^63 and 2^64 floats, negative into unsigned, tag validators min/max/positive/nonzero/required with empty/null/missing, failing Validate()/Unpack() of the hand-written types, a struct setting left out or present as null where exactly ONE member is invalid on its zero value (several invalid members, zero arrays of validating elements, nested structs: not generated - the variant would carry more than one fault), references that do not resolve: a path missing at its first segment (${nope}, ${nope.missing}, ${nope.x.y}), at an intermediate or at the last segment below a namespace of the tree (${a.b.zz_nope.x}, ${a.b.zz_nope}), at an index behind a list of the tree (${l.5}, ${l.5.x}), through a primitive of the tree (${k.x}, ${k.x.y}, ${l.0.x.y}), a reference that resolves but to an object elsewhere in the tree where a primitive is expected (the setting holding the reference is the wrong typed one, not the object), self-referencing ${<path>}, a reference into a cycle of two helper settings (x:${y}, y:${x}; struct targets only, which do not read the helpers) - each either as the whole value (2 of 5) or inside a splice evaluating to a text (\"pre-${r}\", \"${r}/cache\"), a list (\"${r},extra\", \"[1, ${r}, 3]\") or an object (\"{zk: ${r}}\", \"{zk: {zm: [${r}]}}\") -, a conversion fault whose bad VALUE lives behind a reference (struct targets only: the setting holds ${zz_r<a>}, a chain of 1-3 top-level helper settings leads to a value that is fine where it is stored - seconds that overflow time.Duration as positive Go ints and uints, negative ints and floats, integers out of range of the sized kinds, negatives for unsigned, bool<->number, unparsable texts - and fails only in the conversion for the target of the setting holding the reference: that setting and ITS source must be named, not a helper; strata behind-ref:duration (always in the first round), behind-ref:range, behind-ref:type; besides the other routes the helpers are kept in a configuration of their own with its own source handed to every read as Env, route behind-ref-env, which takes the share of the expansion routes), array too short/long; half of the reference faults are placed below an interface{} slot when the tree has one), each at one setting of the tree (struct fields, inline fields, map entries, list and array elements, below pointers, inside interface{} data). Every fault is observed on the configuration built directly and on one built by a randomly chosen other route: merge chains under the default policy (fault delivered by the later operand over an absent or placeholder setting / fault present first and the surroundings merged over it), AppendValues / PrependValues chains that cut the outermost list on the fault path into up to three operands (renumbering), NewFrom plus Remove of 1-3 extra elements in front of the fault in a list on the path (shifting), the input spelled in dotted keys (every edge into a non-empty dictionary or list folded into the key, \"a.b.c\":1 / \"a.l.0\":1 / \"a.l.1.k\":2 with lists spelled completely, or kept nested, decided per path; alone or as operands of the two default-policy chains; a quarter of the routed runs) so that namespaces and lists exist only implicitly, merges under ReplaceValues / ReplaceArrValues over an earlier operand holding the valid tree with every list on the fault path one element longer, a merge with FieldReplaceValues(<a dictionary on the fault path>) over an earlier operand holding the same tree with one more key in that dictionary (the dictionary then comes from the later operand as a whole, also for a member missing from it), a later operand giving the holder of the faulty setting both parts (a named setting added to the list the faulty element sits in, a first element added to the dictionary the faulty member sits in); the dotted spellings, the expansion routes, the mixed holders and the per-field replace get a fixed sixth of the routed runs each, the value written by Set*/SetChild, a faulty list or object written leaf by leaf with setters using full paths (the containers in between exist only as a by-product), an enclosing subtree attached by SetChild (fresh or taken from another tree), the key removed by Remove; and values produced by expansion (a fixed quarter of the routed runs): the subtree at the faulty setting, at its holder or further up the path is written as text in the flag/environment value syntax (bare, single and double quoted strings and keys, lists with and without brackets, nested lists and objects, null members) and the setting holds \"${ENV_n}\" served by a Resolve callback given to every read, or a splice whose middle piece is served by the callback or by a top-level helper setting, stored directly or delivered by a later merge operand - the list or object exists only while it is read, the fault sits at it (length, validator, type), at a member missing from it, or below it at any depth. The valid twin of every routed history must still unpack (for expanded values a twin that does not unpack is only counted: a number written as text is no duration). Observations: Unpack (with and without PathSep), the getters that must fail for the fault (dotted name, name+idx, or relative to an intermediate Child), Unpack of an intermediate Child into the matching sub-type; half of the runs (not on expanded values) also read the fault from a namespace on the fault path CAPTURED as *ucfg.Config by a sequence of Unpack calls into a struct { C *ucfg.Config `config:\"<key>\"` } (taken at the holder of the namespace): the other configuration (the same settings without the faulty one, own source) first and the faulty one second, a Child handle of the other configuration pre-filled and the faulty one unpacked over it, the faulty one first and the other second, or the faulty one alone - then Unpack of the captured configuration into the matching sub-type and a failing getter with the relative name: full dotted path and source as everywhere (a capture step that fails, or a captured read without error, is only counted); for reference faults also the calls that pass through the failing reference or measure it (Has, Remove, Set* of a name below it, CountField of it; judged when they fail). Explicit nulls go half of the time through the routes where the null arrives from a later operand than its holder. Plus, per case, 3 faults that make the load fail (NewFrom or Merge of the valid tree with one setting replaced by a text with broken ${ syntax or by a chan/func value, or with a primitive setting spelled a second time as a namespace \"k.zz_dup\": the error must name the full dotted path of that setting - either spelling for the duplicate - and the source), 2 setter calls with an index beyond MaxIdx(10) (on a name absent from a dictionary of the tree and on a list of the tree: the error must name the list setting; the source where the list exists), 6 reads of settings that do not exist (a key not in a dictionary of the tree, an index behind a list of the tree, names below those; dotted, name+idx, through a Child handle; any getter) whose error must name the first missing setting or a longer prefix of the request, and carry the source; and ~600 calls driving the error paths of Bool/Int/Uint/Float/String/Child, Has, CountField, Remove, Set*, SetChild, NewFrom, Merge and Unpack (missing, through primitives, through failing references, wrong types, unsupported values and targets, non-string keys, duplicate keys, broken ${ syntax, failing resolvers). Distinct = distinct (type program and tree shape, fault kind, depth class, route)."
 }
 
 func (check) Assumptions() []string {
@@ -67,7 +67,7 @@ func (check) Assumptions() []string {
 		"target types never put pointers inside slices or maps, never point to maps, slices or arrays, use arrays only as struct fields and *regexp.Regexp only as a struct field (other shapes are C06/C07 findings)",
 		"a list where an object is expected is not clearly an error by the documentation (a list is a Config object): if Unpack accepts it this is only counted; if it fails the error must name the setting or one below it",
 		"the source is not demanded where no value exists that could carry it (a member of an absent struct) nor for the lenient list-for-object kind; for an absent or null setting with a required tag it is demanded from the holder (the library attaches the holder's source there); a struct setting present as null is a value loaded with a source, so errors about its members must show one",
-		"signatures: <problem>:<fault kind>:<target shape>[+inline][+from-child]:<depth class>[:only-via-<route>] (the suffix when the directly built configuration does not show the problem under the same views); fault-not-detected carries no depth class (no message exists that could misname anything); error-names-wrong-source (the source of another operand of the chain) extends the problem list; predicates that hold across kinds, shapes and depths get their own signature: ...:interface-target (the enclosing interface{} slot is named instead of the leaf inside), ...:drops-struct-key (the key of an absent struct is left out of the path of its member), <problem>:<kind>:through-<call> (a call passing through a failing reference), error-lacks-source:value-inside-expanded-container:via-<route> and error-lacks-source:expanded-list-or-object-itself:via-<route> (expansion routes expand-resolver|expand-splice @self|@holder|@ancestor: where the expanded value sits relative to the setting to be named), error-lacks-source:<kind>:container-implied-by-setters, error-names-wrong-source:failing-reference:list-target, error-names-wrong-source:<kind>:list-replaced-as-a-whole:only-via-merge-replace-arr, error-lacks-source:required-in-null-struct, error-names-wrong-path:missing-read:<what is missing>:<top-level|nested>-holder:<form>:<front|middle>-of-path-dropped|path-spelled-with-read-separator, <problem>:<kind>:path-spelled-with-read-separator, <fault-not-detected|error-names-wrong-path|error-names-wrong-source>:<unresolvable-reference|cyclic-reference|primitive-for-object|...>:dotted-tag-namespace (the fault at the namespace a dotted tag reaches through is swallowed or turned into an absent member), error-names-wrong-path:reference-to-object-for-primitive:names-referenced-setting (+ error-names-wrong-source:...:source-of-referenced-setting), error-names-wrong-source:<kind>:explicit-null, error-names-wrong-source:<kind>:dictionary-replaced-as-a-whole:only-via-merge-field-replace, error-names-wrong-path:<kind>:mixed-holder-named-instead-of-its-setting, error-lacks-path:load-time:<broken-expression|unsupported-value|duplicate-key>:<in-dict|in-list>[-top]:<names-no-setting|front-of-path-dropped>, error-lacks-source:load-time:<kind>, error-lacks-path|error-lacks-source:setter-index-out-of-range:<absent-setting|existing-list>, <error-names-wrong-path|error-lacks-path>:captured-config:path-relative-to-the-captured-namespace and <problem>:<kind>:read-from-captured-config (views Captured.Unpack / Captured.<getter>); reference kinds carry the form of the splice (+splice-text, +splice-list, +splice-object)",
+		"signatures: <problem>:<fault kind>:<target shape>[+inline][+from-child]:<depth class>[:only-via-<route>] (the suffix when the directly built configuration does not show the problem under the same views); fault-not-detected carries no depth class (no message exists that could misname anything); error-names-wrong-source (the source of another operand of the chain) extends the problem list; predicates that hold across kinds, shapes and depths get their own signature: ...:interface-target (the enclosing interface{} slot is named instead of the leaf inside), ...:drops-struct-key (the key of an absent struct is left out of the path of its member), <problem>:<kind>:through-<call> (a call passing through a failing reference), error-lacks-source:value-inside-expanded-container:via-<route> and error-lacks-source:expanded-list-or-object-itself:via-<route> (expansion routes expand-resolver|expand-splice @self|@holder|@ancestor: where the expanded value sits relative to the setting to be named), error-lacks-source:<kind>:container-implied-by-setters, error-names-wrong-source:failing-reference:list-target, error-names-wrong-source:<kind>:list-replaced-as-a-whole:only-via-merge-replace-arr, error-lacks-source:required-in-null-struct, error-names-wrong-path:missing-read:<what is missing>:<top-level|nested>-holder:<form>:<front|middle>-of-path-dropped|path-spelled-with-read-separator, <problem>:<kind>:path-spelled-with-read-separator, <fault-not-detected|error-names-wrong-path|error-names-wrong-source>:<unresolvable-reference|cyclic-reference|primitive-for-object|...>:dotted-tag-namespace (the fault at the namespace a dotted tag reaches through is swallowed or turned into an absent member), error-names-wrong-path:reference-to-object-for-primitive:names-referenced-setting (+ error-names-wrong-source:...:source-of-referenced-setting), error-names-wrong-source:<kind>:explicit-null, error-names-wrong-source:<kind>:dictionary-replaced-as-a-whole:only-via-merge-field-replace, error-names-wrong-path:<kind>:mixed-holder-named-instead-of-its-setting, error-lacks-path:load-time:<broken-expression|unsupported-value|duplicate-key>:<in-dict|in-list>[-top]:<names-no-setting|front-of-path-dropped>, error-lacks-source:load-time:<kind>, error-lacks-path|error-lacks-source:setter-index-out-of-range:<absent-setting|existing-list>, <error-names-wrong-path|error-lacks-path>:captured-config:path-relative-to-the-captured-namespace and <problem>:<kind>:read-from-captured-config (views Captured.Unpack / Captured.<getter>); reference kinds carry the form of the splice (+splice-text, +splice-list, +splice-object); value-behind-reference faults carry +behind-ref in the kind and have error-names-wrong-path:<kind>:value-behind-reference:names-referenced-setting (a setting of the reference chain is named) and error-names-wrong-source:<kind>:value-behind-reference:source-of-referenced-setting",
 		"not demanded: Error.Path(), the wording, which Reason is used, errors of the YAML/JSON/HJSON syntax decoders and of the OS; whether the typed-error drive calls fail at all (only counted: drive_no_error)",
 		"panics are reported (panic:<entry point>) but inputs known to panic (C07: Unpack(&interface{}), negative idx, nil and unaddressable targets, complex values) are not generated",
 	}
@@ -245,7 +245,7 @@ func (cs *caseState) selectFaults(ps []*position) []cand {
 		}}
 	for _, p := range ps {
 		for _, f := range faultsAt(p, env) {
-			byKind[f.kind] = append(byKind[f.kind], cand{p, f})
+			byKind[f.stratum()] = append(byKind[f.stratum()], cand{p, f})
 		}
 	}
 	// reference faults matter most below an interface{} slot (the error has
@@ -270,6 +270,20 @@ func (cs *caseState) selectFaults(ps []*position) []cand {
 	}
 	sort.Strings(kinds)
 	r.Shuffle(len(kinds), func(i, j int) { kinds[i], kinds[j] = kinds[j], kinds[i] })
+	// the strata whose bad value lives behind a reference are rare (they need
+	// a struct target and a leaf of the family): the duration family always
+	// gets its turn in the first round, the others half of the time
+	{
+		var front, back []string
+		for _, k := range kinds {
+			if k == "behind-ref:duration" || (strings.HasPrefix(k, "behind-ref:") && r.Intn(2) == 0) {
+				front = append(front, k)
+			} else {
+				back = append(back, k)
+			}
+		}
+		kinds = append(front, back...)
+	}
 	cs.res.Ev("fault_candidates", int64(func() int {
 		n := 0
 		for _, l := range byKind {
@@ -318,6 +332,14 @@ func (cs *caseState) runFault(pos *position, f fault) {
 			res.Ev("reference_faults_inside_splices", 1)
 		}
 	}
+	if f.behind > 0 {
+		res.Ev("faults_with_value_behind_reference", 1)
+		res.SetAdd("behind_ref_kind_x_chain", fmt.Sprintf("%s|%d", f.kind, f.behind))
+		res.SetAdd("behind_ref_kind_x_stored_type", fmt.Sprintf("%s|%T", f.kind, f.extras[f.refChain[f.behind-1]].Prim))
+		if u, ok := f.extras[f.refChain[f.behind-1]].Prim.(uint64); f.kind == "out-of-range-duration" && (ok || func() bool { i, ok := f.extras[f.refChain[f.behind-1]].Prim.(int64); u = uint64(i); return ok && i > 0 }()) && u > 0 {
+			res.Ev("behind_ref_duration_overflow_of_positive_integers", 1)
+		}
+	}
 	if pos.sp != nil && pos.sp.dottedNS {
 		res.Ev("faults_at_dotted_tag_namespace", 1)
 	}
@@ -341,6 +363,9 @@ func (cs *caseState) runFault(pos *position, f fault) {
 	// the dotted spellings and the values produced by expansion get a fixed
 	// share of the runs each
 	if share := map[int]string{0: "dotted-", 1: "expand-", 2: "mixed-", 3: "merge-field-"}[cs.r.Intn(6)]; share != "" {
+		if f.behind > 0 && share == "expand-" {
+			share = "behind-ref-" // no expansion routes for reference texts: the share goes to the helpers kept in an Env configuration
+		}
 		var sel []route
 		for _, x := range routes {
 			if strings.HasPrefix(x.name, share) {
@@ -467,6 +492,13 @@ func (cs *caseState) observe(rt route, T *model.Node, pos *position, f fault, ba
 		res.SetAdd("expanded_kind_x_anchor", f.kind+rt.name[strings.Index(rt.name, "@"):])
 		res.SetAdd("expanded_shape_x_route", pos.shape()+"|"+rt.name)
 	}
+	if f.behind > 0 {
+		res.Ev("behind_ref_runs", 1)
+		res.SetAdd("behind_ref_kind_x_route", f.kind+"|"+rt.name)
+		if behindRefOtherSource[rt.name] {
+			res.Ev("behind_ref_runs_referenced_value_from_another_source", 1)
+		}
+	}
 	res.Key(cs.shapeID + "|" + f.sigKind() + "|" + pos.depthClass() + "|" + rt.name)
 	exact := ""
 	if !f.parentRaised {
@@ -570,6 +602,12 @@ func (cs *caseState) observe(rt route, T *model.Node, pos *position, f fault, ba
 		case (problem == "error-names-wrong-path" || problem == "error-lacks-path") && spelledWith(msg, want, cs.sep):
 			// the path is there, but (partly) joined with the separator of the call
 			sig = problem + ":" + f.kind + ":path-spelled-with-read-separator"
+		case f.behind > 0 && problem == "error-names-wrong-path" && namesAny(msg, f.refChain):
+			// a setting of the reference chain (where the value is fine) is
+			// named instead of the setting whose conversion failed
+			sig = problem + ":" + f.kind + ":value-behind-reference:names-referenced-setting"
+		case f.behind > 0 && problem == "error-names-wrong-source":
+			sig = problem + ":" + f.kind + ":value-behind-reference:source-of-referenced-setting"
 		case f.refTo != "" && problem == "error-names-wrong-path" && hasToken(msg, f.refTo, false):
 			// the referenced object is named instead of the setting holding the reference
 			sig = problem + ":" + f.kind + ":names-referenced-setting"
@@ -901,6 +939,21 @@ func (cs *caseState) observe(rt route, T *model.Node, pos *position, f fault, ba
 		}
 	}
 	return seen
+}
+
+// behindRefOtherSource: the routes that deliver the helper settings of a
+// value-behind-reference fault with another source than the setting holding
+// the reference.
+var behindRefOtherSource = map[string]bool{"merge-overlay": true, "dotted-merge-overlay": true, "merge-under": true, "dotted-merge-under": true,
+	"setchild-fresh": true, "setchild-reattach": true, "behind-ref-env": true}
+
+func namesAny(msg string, toks []string) bool {
+	for _, t := range toks {
+		if hasToken(msg, t, false) {
+			return true
+		}
+	}
+	return false
 }
 
 // spelledWith: msg contains the dotted path with some of its dots replaced by
